@@ -69,6 +69,8 @@ def hooks():
         if isinstance(r0, BStr):
             if name == "len":
                 return Z(r0.length())
+            if name == "is_empty":
+                return Z(r0.length() == 0)
             if name in ("put", "extend_from_slice"):
                 recv.place.set(r0 + deref(args[0]))
                 return UNIT
